@@ -206,8 +206,7 @@ theorem get_is_extracted_single (h : List Bytes → UInt64) (env : Env) (pa pa' 
       simp only [hk', hf', Bool.false_eq_true, if_false] at hm
       split at hm
       · simp at hm
-      · dsimp only at hm
-        by_cases he : sp.key.isEmpty = true
+      · by_cases he : sp.key.isEmpty = true
         · rw [if_pos he] at hm; simp at hm
         · rw [if_neg he] at hm
           simp only [Prod.mk.injEq, Except.ok.injEq] at hm
@@ -215,6 +214,7 @@ theorem get_is_extracted_single (h : List Bytes → UInt64) (env : Env) (pa pa' 
           refine ⟨mkField sp.key 0 sp.order, by simp [Proj.flat, Proj.addRootField, newProjection, Top.flat], rfl, ?_⟩
           rw [get_is_extracted_partial]
           simp [Proj.populateRow, Proj.addRootField, newProjection, runPart, mkField, getVal]
+          cases extract sp.key r.view <;> rfl
 
 /-! ### ProjectValues -/
 
